@@ -42,7 +42,8 @@ let digest (xs : int list) =
 let rec longer l n = match l with [] -> false | _ :: r -> n = 0 || longer r (n - 1)
 let show_ints scale l = if scale && longer l digest_over then "#" ^ digest l else str_ints l
 
-let is_scale kind = String.length kind = 2 && kind.[0] = 'S' && String.contains "ixst" kind.[1]
+(* round 4: Sp Sa Sf Sz = pointer / interface / float64 / struct{} elements (Sz has the one code 0) *)
+let is_scale kind = String.length kind = 2 && kind.[0] = 'S' && String.contains "ixstpafz" kind.[1]
 let parse_case inp =
   match words inp with
   | [kind; k; ops] when is_scale kind || List.mem kind ["X"; "B"; "H"] ->
@@ -73,9 +74,18 @@ let build_op k st p : int M.op =
     let js = List.map (fun j -> if j < 0 || j >= k then raise Bad_syntax else nat_of_int j) (l 2) in
     let ord = match M.intersect_operand (List.map st js) with M.Ok m -> M.m_keys m | _ -> [] in
     M.OIntersect (v 1, js, ord)
-  | "range" -> M.ORange (v 1, if nth_arg p 2 = "nil" then None else Some (l 2))
+  (* round 4: a 4th field names the instantiation of the OTHER type parameter (value type of the map
+     given to Keys, key type for Values, kind of iterator for Range) or the form of the variadic
+     argument list: the model is stated for all of them alike.  The hand-written iterator h yields
+     every element twice. *)
+  | "range" -> M.ORange (v 1, if nth_arg p 2 = "nil" then None else
+                              Some (if nth_arg p 3 = "h" then List.concat_map (fun x -> [x; x]) (l 2) else l 2))
   | "keys" -> M.OKeys (v 1, dedup_first (lnil 2))
   | "values" -> M.OValues (v 1, lnil 2)
+  (* another set as the argument map: Keys(v_j), Range(maps.Keys(v_j)); the order in which the
+     argument is ranged over is not observable in the result *)
+  | "keysv" -> M.OKeys (v 1, M.m_keys (st (v 2)))
+  | "rangev" -> M.ORange (v 1, Some (M.m_keys (st (v 2))))
   | "add" -> M.OAdd (v 1, l 2)
   | "addall" -> M.OAddAll (v 1, v 2, M.m_keys (st (v 2)))
   | "rm" -> M.ORemove (v 1, l 2)
@@ -94,8 +104,9 @@ let build_op k st p : int M.op =
   | "sub" -> M.OIsSubset (v 1, v 2, M.m_keys (st (v 1)))
   | "eq" -> M.OEquals (v 1, v 2, M.m_keys (st (v 1)))
   | "slice" -> M.OSlice (v 1, if nth_arg p 2 = "#" then M.m_keys (st (v 1)) else l 2)
-  | "append" | "appendf" ->
+  | "append" | "appendf" | "appendc" ->
     let vs = if nth_arg p 2 = "n" then None else Some (l 2) in
+    if List.hd p = "appendc" && (vs = None || int_of' (nth_arg p 4) < 0) then raise Bad_syntax else
     M.OAppend (v 1, vs, if nth_arg p 3 = "#" then M.m_keys (st (v 1)) else l 3)
   | _ -> raise Bad_syntax
 
@@ -127,8 +138,13 @@ let show_res scale k st0 next0 st1 p (o : int M.out) =
   | M.RElem x -> "e" ^ string_of_int x
   | M.RSlice s ->
     let els = match s with None -> [] | Some l -> l in
-    let n = if (name = "append" || name = "appendf") && nth_arg p 2 <> "n" then List.length (ints_of' (nth_arg p 2)) else 0 in
+    let n = if (name = "append" || name = "appendf" || name = "appendc") && nth_arg p 2 <> "n" then List.length (ints_of' (nth_arg p 2)) else 0 in
     "l" ^ b01 (s <> None) ^ ":" ^ str_ints (take n els) ^ ":" ^ show_ints scale (sorted (drop n els))
+    ^ (if name <> "appendc" then "" else
+       (* where the result lives is the language's rule for append, applied to the model's own
+          count of members: the same array iff the spare capacity holds them all *)
+       let added = List.length els - n and room = int_of' (nth_arg p 4) in
+       ":" ^ b01 (added = 0 || room >= added) ^ "0")
   | M.RPanicNilMap -> "PANIC:nil"
   | M.RPanicIndex -> "PANIC:index"
   | M.RPanicNilFunc -> "PANIC:nil"
@@ -245,6 +261,7 @@ let spec_case scale k ops out =
         | "new" -> fresh (set_of (l 2))
         | "keys" | "values" -> fresh (set_of (lnil 2))
         | "range" -> if nth_arg p 2 = "nil" then expect_res "PANIC:nil" else fresh (set_of (l 2))
+        | "keysv" | "rangev" -> fresh r.(v 2)
         | "newsize" -> fresh IS.empty
         | "nil" -> r.(i) <- IS.empty; expect_res "Snil=0"
         | "clone" -> fresh r.(v 2)
@@ -278,15 +295,31 @@ let spec_case scale k ops out =
         | "meets" -> expect_res ("b" ^ b01 (not (IS.disjoint r.(i) r.(v 2))))
         | "sub" -> expect_res ("b" ^ b01 (IS.subset r.(i) r.(v 2)))
         | "eq" -> expect_res ("b" ^ b01 (IS.equal r.(i) r.(v 2)))
-        | "slice" | "append" | "appendf" ->
+        | "slice" | "append" | "appendf" | "appendc" ->
           let (prefix, order) = if List.hd p = "slice" then (".", nth_arg p 2) else ((if nth_arg p 2 = "n" then "." else str_ints (l 2)), nth_arg p 3) in
-          (match String.split_on_char ':' res with
+          let fields = String.split_on_char ':' res in
+          (* appendc: the two digits behind say where the result lives and whether cells outside the
+             appended range were written; by the language's rule for append the array of vs is used
+             iff its spare capacity holds every member *)
+          let (fields, place) =
+            match List.hd p, fields with
+            | "appendc", [a; b; c; d] ->
+              let room = int_of' (nth_arg p 4) and card = IS.cardinal r.(i) in
+              let want = b01 (card = 0 || room >= card) ^ "0" in
+              ([a; b; c], if d = want then None else
+                 Some (Printf.sprintf "Append onto len %d cap %d of a set of %d: placement/clobber digits %s, must be %s (in place iff the spare capacity suffices; no cell outside the appended range written)"
+                         (List.length (l 2)) (List.length (l 2) + room) card d want))
+            | "appendc", [_; "short"; _] -> (fields, None)
+            | "appendc", _ -> ([], None)
+            | _ -> (fields, None) in
+          (match fields with
            | [nonnil; pre; rest] ->
-             if pre <> prefix then Some "the given prefix was not preserved"
+             if pre = "short" then Some "the result is shorter than the slice given"
+             else if pre <> prefix then Some "the given prefix was not preserved"
              else if rest <> show_set scale r.(i) then Some (Printf.sprintf "listed {%s}, members %s (%s): not each member exactly once" rest (braces r.(i)) (show_set scale r.(i)))
              else if not (scale && order = "#") && sorted (ints_of' order) <> IS.elements r.(i) then Some "the recorded order is not an enumeration of the members"
              else if List.hd p = "slice" && (nonnil = "l1") <> not (IS.is_empty r.(i)) then Some "Slice must be nil exactly for the empty set"
-             else None
+             else place
            | _ -> Some ("result " ^ res))
         | _ -> raise Bad_syntax in
       (match verdict with
@@ -308,7 +341,7 @@ let spec_case scale k ops out =
               if !bad = None then
                 if j <> i || panicked then (if nil_now.(j) <> was then bad := Some (Printf.sprintf "nil-ness of v%d changed" j))
                 else match name with
-                  | "new" | "range" | "keys" | "values" | "newsize" | "clone" | "isect" | "add" | "addall" ->
+                  | "new" | "range" | "keys" | "values" | "keysv" | "rangev" | "newsize" | "clone" | "isect" | "add" | "addall" ->
                     if nil_now.(j) then bad := Some "the constructed/receiving set is nil"
                   | "nil" -> if not nil_now.(j) then bad := Some "nil assignment did not take"
                   | _ -> if nil_now.(j) <> was then bad := Some (Printf.sprintf "nil-ness of v%d changed" j)) isnil;
